@@ -1467,18 +1467,19 @@ def load_corpus():
 
 
 def build_model():
-    return fw.ocaml_model("C02", ["Model/Wire.vo"])
+    return fw.ocaml_model("C02", ["Model/Wire.vo", "Model/WireResp.vo"])
 
 
 def run(ctx):
     import time as _time
     rng = ctx.rng
-    budget = 45.0 if ctx.quick else 900.0
-    n_target = 1500 if ctx.quick else 60000
+    budget = 50.0 if ctx.quick else 900.0
+    n_target = 3500 if ctx.quick else 80000
     bed = Bed()
     t0 = _time.perf_counter()
     ran = 0
     wire_cases = []
+    resp_cases = []
     try:
         for fn, case in load_corpus():
             out, bad = check_case(ctx, bed, case, counts=False)
@@ -1504,6 +1505,8 @@ def run(ctx):
             if not bad and in_model_subset(case) and out["server"].get("calls") == 1 \
                     and len(wire_cases) < (600 if ctx.quick else 6000):
                 wire_cases.append((case, out["wire_c2s"], out["server"], out["client"]))
+            if not bad and in_resp_subset(case) and out["server"].get("calls") == 1 and len(resp_cases) < 5000:
+                resp_cases.append((case, out["client"]))
             if ran % 7 == 0:
                 ctx.sample({"case": case, "observed": summarize(out)}, limit=4)
     finally:
@@ -1511,6 +1514,7 @@ def run(ctx):
     ctx.oblige("roundtrip-oracle-ran", "correspondence", ran > 50 or not ctx.quick, f"{ran} exchanges")
     ctx.count("exchanges", ran)
     suite_wire_model(ctx, wire_cases)
+    suite_resp_model(ctx, resp_cases)
 
 
 # ------------------------------------------------------------------------------------------------
@@ -1619,6 +1623,67 @@ def suite_wire_model(ctx, wire_cases):
     ctx.close_suite("wire_request_model", ran)
 
 
+def in_resp_subset(case):
+    """Responses Model/WireResp.v decides about: StreamResponse with or without a declared length, optional
+    enable_chunked_encoding / force_close; no compression; the exchange ran to completion on both sides."""
+    rq, rs = case["req"], case["resp"]
+    if rs["kind"] != "stream" or rs.get("compression") or case.get("expect") or rq.get("expect100"):
+        return False
+    if case.get("cread", "read") == "none" or rq.get("chunked") is False:
+        return False
+    if rs.get("read", "read") == "none" and (rq.get("body") or {"kind": "none"})["kind"] != "none":
+        return False
+    if any(k.lower() in ("connection", "content-length", "transfer-encoding") for k, _v in rs.get("headers") or []):
+        return False
+    return True
+
+
+def suite_resp_model(ctx, resp_cases):
+    """The response head the real server wrote (Content-Length / Transfer-Encoding / Connection) and what the two
+    ends then did with the connection, against Model/WireResp.v (server_prepare, client_close)."""
+    ok, exe = build_model()
+    if not ok:
+        ctx.oblige("model-build", "correspondence", False, str(exe)[-800:])
+        return
+    lines = []
+    for case, cl in resp_cases:
+        rq, rs = case["req"], case["resp"]
+        declared = "-"
+        if rs.get("content_length"):
+            declared = str(max(0, rs["body"]["size"] - rs.get("cl_short", 0)))
+        lines.append(" ".join(["RS", "0" if rq.get("version") == "1.0" else "1",
+                               "0" if (rq.get("conn") == "close" or rq.get("force_close")) else "1",
+                               "1" if rq["method"].upper() == "HEAD" else "0", str(rs.get("status", 200)), declared,
+                               "1" if rs.get("chunked") else "0", "1" if rs.get("force_close") else "0"]))
+    if not lines:
+        ctx.close_suite("response_decisions_model", 0)
+        return
+    answers = fw.run_model(exe, lines)
+    ran = 0
+    for (case, cl), ans, line in zip(resp_cases, answers, lines):
+        ran += 1
+        parts = ans.split()
+        ctx.count("respmodel:" + parts[0])
+        hs = cl["headers"]
+        cls = multi_get(hs, "content-length")
+        te = any(v.lower() == "chunked" for v in multi_get(hs, "transfer-encoding"))
+        conn = [v.lower() for v in multi_get(hs, "connection")]
+        impl = (cls[0] if cls else "-", "1" if te else "0", "c" if conn == ["close"] else "k" if conn == ["keep-alive"] else "n" if not conn else "?",
+                "1" if not cl["pooled0"] else "0", "1" if cl["ka"]["server_open"] else "0")
+        if parts[0] != "HEAD":
+            ctx.disagreement("response_decisions_model", {"case": case, "line": line}, ans, repr(impl))
+            continue
+        m_cl, m_te, m_conn, m_keeps, m_close, m_waits = parts[1:7]
+        # the server's transport stays open only if it keeps the connection AND the client did not close it
+        m_open = "1" if (m_keeps == "1" and m_close == "0") else "0"
+        model = (m_cl, m_te, m_conn, m_close, m_open)
+        if model != impl:
+            ctx.disagreement("response_decisions_model", {"case": case, "line": line,
+                                                          "fields": "content-length, chunked, connection, client closes, server transport open"},
+                             repr(model), repr(impl))
+    ctx.close_suite("response_decisions_model", ran)
+
+
 def decode_chunks(b: bytes):
     out, p = [], 0
     while True:
@@ -1643,4 +1708,19 @@ def replay(ctx, case):
         bad = oracle(case, out)
     finally:
         bed.close()
-    return {"violates": bool(bad), "violations": [f"{k}: {m}" for k, m in bad], "observed": summarize(out)}
+    res = {"violates": bool(bad), "violations": [f"{k}: {m}" for k, m in bad], "observed": summarize(out)}
+    # the model's view of the same request, when it is of the modelled shape (chunked=False included)
+    probe = json.loads(json.dumps(case))
+    probe["req"]["chunked"] = None if probe["req"].get("chunked") is False else probe["req"].get("chunked")
+    if in_model_subset(probe) and out["client"].get("c2s_len") is not None and "url_target" in out["client"]:
+        try:
+            ok, exe = build_model()
+            if ok:
+                ans = fw.run_model(exe, [model_line(case, out["client"], random.Random(0))])[0].split()
+                res["model"] = {"answer": ans[0]}
+                if ans[0] == "OK":
+                    res["model"].update(valid=ans[1] == "1", wire_equals_implementation=fw.unhex(ans[2]) == out["wire_c2s"][:out["client"]["c2s_len"]],
+                                        roundtrip_conclusion_holds=ans[-1] == "1", body_delivered_hex=ans[-2][:120])
+        except Exception as e:  # noqa
+            res["model"] = {"error": repr(e)}
+    return res
